@@ -179,6 +179,18 @@ def check_case(lines, obs, want=("C11", "C12")):
                     continue
             if wide is not None:
                 wd = dmap[wide] if wide in dmap else [d for d in dims if d[0] == wide][0]
+                # the dimension spread over the columns is not named anywhere: a column whose *values* happen to be
+                # exactly its items can be mistaken for it (the property's hypothesis excludes that)
+                wset = set(Fraction(int(i[1:])) if i[0] == "i" else i[1:].replace("~", " ") for i in wd[3])
+                clash = False
+                for j in range(len(cols)):
+                    vs = set(r[j] for r in rows if r[j] is not None)
+                    if wd[2] == "s":
+                        vs = set(str(int(v)) if isinstance(v, Fraction) and v.denominator == 1 else v for v in vs)
+                    if vs == wset:
+                        clash = True
+                if clash:
+                    continue
                 texts = set(i[1:] for i in wd[3])
                 if texts & (set(d[1] for d in dims) | set(d[0] for d in dims) | {"value", "index"}):
                     continue            # a column labelled like a dimension: ambiguous by construction
